@@ -264,6 +264,10 @@ def generate(tier, seed):
     yield "table", {"rows": [["", "AB"], ["A", "B"], ["AB", ""]], "cols": ["x", "y"], "kinds": ["str", "str"]}, True
     yield "table", {"rows": [["A", None], ["A", None], ["A", "B"], [None, "A"]], "cols": ["x", "y"], "kinds": ["str", "str"]}, True
     yield "table", {"rows": [[1, "1"], [1, "1"], [11, ""], [1, "11"]], "cols": ["x", "y"], "kinds": ["num", "str"]}, True
+    # one table has a column that is missing everywhere (e.g. beta-only data next to paired data)
+    yield "table", {"rows": [["A", None], ["B", None], ["A", None]], "rows2": [["A", "X"], ["A", None], ["B", None]], "cols": ["x", "y"], "kinds": ["str", "str"]}, True
+    yield "table", {"rows": [[None, "A"], [None, "B"]], "rows2": [["A", None], ["B", None], [None, "A"]], "cols": ["x", "y"], "kinds": ["str", "str"]}, True
+    yield "table", {"rows": [[1, None], [2, None], [1, None]], "rows2": [[1, 5], [1, None]], "cols": ["x", "y"], "kinds": ["num", "num"]}, True
     n_tab = 4000 * TS if thorough else 220
     for i in range(n_tab):
         nrows = rng.randint(2, 40)
